@@ -269,7 +269,7 @@ def r4_4(run):
         run.ob("%s|thermal-identification-before-reduction" % name,
                len(ident) >= 1 and len(red) >= 1 and min(c.lineno for c in ident) < min(c.lineno for c in red),
                "%s identifies the thermally active part before reducing the pit for heat transfer" % name, run.where(g_, g_.node))
-    run.floor(8)
+    run.floor(6)
 
 
 def r4_5(run):
